@@ -209,7 +209,7 @@ func (c *FCtx) execStmt(st *State, s ast.Stmt, rest []ast.Stmt) (flows []Flow) {
 			}
 			return []Flow{{st: st, kind: fContinue, label: l}}
 		case token.GOTO:
-			return []Flow{{st: st, kind: fGoto, label: x.Label.Name, pos: c.eng.pos(x)}}
+			return []Flow{{st: st, kind: fGoto, node: x, label: x.Label.Name, pos: c.eng.pos(x)}}
 		}
 		fail("branch statement %s", x.Tok)
 	case *ast.LabeledStmt:
@@ -1114,6 +1114,17 @@ func (c *FCtx) execLabelLoop(st *State, x *ast.LabeledStmt, rest []ast.Stmt) []F
 	var out []Flow
 	for _, f := range run(hs) {
 		if f.kind == fGoto && f.label == label {
+			// `goto <label> k assert E`: the k-th goto statement (source order) is taken only when E holds
+			if bs, ok := f.node.(*ast.BranchStmt); ok && c.fi != nil {
+				ord := c.fi.GotoOrd[bs]
+				for k, cl := range c.curCon.Gotos[fmt.Sprintf("%s#%d", label, ord)] {
+					if !cl.visible(c.prop) {
+						continue
+					}
+					genv := c.bodyEnv(f.st, bs.Pos())
+					c.oblige(f.st, "assert", fmt.Sprintf("goto[%s#%d]/assert[%d] %s", label, ord, k+1, cl.Src), genv.evalBool(cl.E), f.pos)
+				}
+			}
 			penv := c.invEnv(f.st, x)
 			for k, inv := range spec.Invs {
 				if inv.visible(c.prop) {
